@@ -11,6 +11,7 @@ import PM.TypePlan
 import Props.C14
 import PM.KeptChildren
 import Proofs.TypePlan
+import Proofs.TypePlanFit
 namespace PM.C13
 open PM
 
@@ -892,5 +893,75 @@ example (keep sp : Marks) :
     nlNodes keep sp [97, 13, 10, 98, 10] =
       [.text [97] keep, .text [32] sp, .text [98] keep, .text [32] sp] := by
   simp [nlNodes]
+
+/-! ## The planners with the Fitter model plugged in (PM/TypePlanFit.lean)
+
+`PSt.replaceF`, `PSt.clearIncompatibleF`, `PSt.setNodeMarkupF`, `PSt.setBlockTypeF` are the planners
+above with `replaceStep` (PM/Fitter.lean — `replace_step` with the `Fitter` as an executable model,
+C11) called wherever the real code calls `replace_step`, instead of a recorded answer taken from
+`PSt.fits`.  They are tied exactly to the real operations (request `planNodeOpF` of
+harness/props/c13.py: no recorded answers are sent; step list, final document and the number of
+Fitter consultations are compared).  In these versions the field `fits` is the *log* of the answers
+the Fitter model gave.
+
+### the bridge to the recorded-oracle versions
+
+`Agrees st rF run` (Proofs/TypePlanFit.lean): there is a list `asked` — the answers of `replaceStep`
+at the consulted requests, in order; the plugged-in run `rF` appends it to its log — such that the
+oracle version `run` started with `asked ++ rest` as its recorded list has the same outcome (errors
+of the Fitter model read as `internal`) and is left with `rest`. -/
+
+theorem replaceF_agrees (S : Schema) (st : PSt) (f t : Nat) (sl : Slice) :
+    Agrees st (st.replaceF S f t sl) (fun s => s.replace S f t sl) :=
+  PSt.replaceF_agrees S st f t sl
+
+theorem clearIncompatibleF_agrees (S : Schema) (st : PSt) (pos : Nat) (pty : TypeId) (q0 : Nat) :
+    Agrees st (st.clearIncompatibleF S pos pty q0) (fun s => s.clearIncompatible S pos pty q0) :=
+  PSt.clearIncompatibleF_agrees S st pos pty q0
+
+theorem setNodeMarkupF_agrees (S : Schema) (st : PSt) (pos : Nat) (ty : Option TypeId) (attrs : Attrs)
+    (marks : Option Marks) :
+    Agrees st (st.setNodeMarkupF S pos ty attrs marks) (fun s => s.setNodeMarkup S pos ty attrs marks) :=
+  PSt.setNodeMarkupF_agrees S st pos ty attrs marks
+
+theorem setBlockTypeF_agrees (S : Schema) (st : PSt) (f t : Nat) (ty : TypeId) (attrs : Attrs) :
+    Agrees st (st.setBlockTypeF S f t ty attrs) (fun s => s.setBlockType S f t ty attrs) :=
+  PSt.setBlockTypeF_agrees S st f t ty attrs
+
+/-- **`…F_eq_of_fits`**, read from a start with an empty log: if the recorded list handed to the
+    oracle version is exactly the list of answers `replaceStep` gives at the consulted requests (the
+    final log `stF.fits` of the plugged-in run), the two versions make the same run — same steps,
+    same maps, same document — and the oracle version consumes every recorded answer. -/
+theorem replaceF_eq_of_fits (S : Schema) (st stF : PSt) (f t : Nat) (sl : Slice) (hlog : st.fits = [])
+    (h : st.replaceF S f t sl = .ok stF) :
+    ({ st with fits := stF.fits } : PSt).replace S f t sl = .ok { stF with fits := [] } :=
+  ((PSt.replaceF_agrees S st f t sl).run_eq hlog).1 stF h
+
+theorem clearIncompatibleF_eq_of_fits (S : Schema) (st stF : PSt) (pos : Nat) (pty : TypeId) (q0 : Nat)
+    (hlog : st.fits = []) (h : st.clearIncompatibleF S pos pty q0 = .ok stF) :
+    ({ st with fits := stF.fits } : PSt).clearIncompatible S pos pty q0 = .ok { stF with fits := [] } :=
+  ((PSt.clearIncompatibleF_agrees S st pos pty q0).run_eq hlog).1 stF h
+
+theorem setNodeMarkupF_eq_of_fits (S : Schema) (st stF : PSt) (pos : Nat) (ty : Option TypeId) (attrs : Attrs)
+    (marks : Option Marks) (hlog : st.fits = []) (h : st.setNodeMarkupF S pos ty attrs marks = .ok stF) :
+    ({ st with fits := stF.fits } : PSt).setNodeMarkup S pos ty attrs marks = .ok { stF with fits := [] } :=
+  ((PSt.setNodeMarkupF_agrees S st pos ty attrs marks).run_eq hlog).1 stF h
+
+theorem setBlockTypeF_eq_of_fits (S : Schema) (st stF : PSt) (f t : Nat) (ty : TypeId) (attrs : Attrs)
+    (hlog : st.fits = []) (h : st.setBlockTypeF S f t ty attrs = .ok stF) :
+    ({ st with fits := stF.fits } : PSt).setBlockType S f t ty attrs = .ok { stF with fits := [] } :=
+  ((PSt.setBlockTypeF_agrees S st f t ty attrs).run_eq hlog).1 stF h
+
+/-- … and a plugged-in run that fails corresponds to an oracle run (with the answers up to the
+    failure as its recorded list) that fails with the same error class -/
+theorem setBlockTypeF_error_of_fits (S : Schema) (st : PSt) (f t : Nat) (ty : TypeId) (attrs : Attrs)
+    (e : PlanErr) (hlog : st.fits = []) (h : st.setBlockTypeF S f t ty attrs = .error e) :
+    ∃ asked, ({ st with fits := asked } : PSt).setBlockType S f t ty attrs = .error e.toErr :=
+  ((PSt.setBlockTypeF_agrees S st f t ty attrs).run_eq hlog).2 e h
+
+theorem clearIncompatibleF_error_of_fits (S : Schema) (st : PSt) (pos : Nat) (pty : TypeId) (q0 : Nat)
+    (e : PlanErr) (hlog : st.fits = []) (h : st.clearIncompatibleF S pos pty q0 = .error e) :
+    ∃ asked, ({ st with fits := asked } : PSt).clearIncompatible S pos pty q0 = .error e.toErr :=
+  ((PSt.clearIncompatibleF_agrees S st pos pty q0).run_eq hlog).2 e h
 
 end PM.C13
